@@ -234,29 +234,59 @@ def nontrivial_value(exp):
     return True
 
 
-def check_method(part, Perm, p, name, args, repeat=False, times=1):
+def perm_forms(Perm):
+    """FORMS: every way of handing the same permutation to the library."""
+    return {
+        "tuple": lambda p: Perm(p),
+        "list": lambda p: Perm(list(p)),
+        "iterator": lambda p: Perm(iter(p)),
+        "generator": lambda p: Perm(v for v in p),
+        "map": lambda p: Perm(map(int, p)),
+        "Perm(Perm)": lambda p: Perm(Perm(p)),
+        "to_standard(2v+3)": lambda p: Perm.to_standard([2 * v + 3 for v in p]),   # shared memoised object
+        "to_standard(iterator)": lambda p: Perm.to_standard(iter(p)),
+        "from_string": lambda p: Perm.from_string("".join(map(str, p))),
+        "one_based": lambda p: Perm.one_based([v + 1 for v in p]),
+        "from_iterable_validated": lambda p: Perm.from_iterable_validated(p),
+        "inverse.inverse": lambda p: Perm(p).inverse().inverse(),
+    }
+
+
+def check_method(part, Perm, p, name, args, repeat=False, times=1, form=None, kwargs=None,
+                 sub="methods", exp=None):
     """One (method, permutation, arguments) case.  Returns the expected value (for counting).
     `times` > 1 (replay only) repeats the whole case on fresh objects, so that a case whose failure
-    depends on an earlier call in the same process still reproduces."""
+    depends on an earlier call in the same process still reproduces.  `form`: how the Perm object is
+    made (perm_forms); `kwargs`: the arguments given by keyword instead of by position."""
     kind, ref, dev = METHODS[name]
-    exp = expected(kind, ref, p, args)
+    if exp is None:
+        exp = expected(kind, ref, p, tuple(args) + tuple((kwargs or {}).values()))
     case = {"method": name, "args": list(args), "perm": list(p)}
+    if form is not None:
+        case["form"] = form
+    if kwargs:
+        case["kwargs"] = dict(kwargs)
+    make = perm_forms(Perm)[form] if form is not None else Perm
     for _ in range(times):
-        obj = Perm(p)
+        try:
+            obj = make(p)
+        except Exception as exc:  # noqa
+            part.violation(sub, case, {"exception_in_construction": repr(exc)})
+            return exp
         meth = getattr(obj, name, None)
         if meth is None:
             part.bump("method-missing:" + name)
             return exp
         try:
-            got = observe(kind, meth(*args), p, Perm)
+            got = observe(kind, meth(*args, **(kwargs or {})), p, Perm)
         except Exception as exc:  # noqa
-            part.violation("methods", case, {"exception": repr(exc), "expected": exp})
+            part.violation(sub, case, {"exception": repr(exc), "expected": exp})
             return exp
         if got != exp:
             sig = None
             if dev is not None and got == expected(kind, dev, p, args):
                 sig = SIG_LAYERS
-            report(part, "methods", case, {"expected": exp, "got": got}, sig)
+            report(part, sub, case, {"expected": exp, "got": got}, sig)
             return exp
         if repeat:
             try:
@@ -462,6 +492,549 @@ def shard_scale_tools(shard):
     return part
 
 
+# --------------------------------------------------------------------------------------------
+# FORMS: the same logical input in every argument form the signatures admit
+# --------------------------------------------------------------------------------------------
+
+def shard_forms_methods(shard):
+    """every Perm construction form x every method x every argument (also by keyword)"""
+    n, lo, hi = shard
+    Perm, PS = _lib()
+    part = Partial()
+    forms = [f for f in perm_forms(Perm) if f != "tuple"]     # "tuple" is the form used everywhere else
+    ents = table_entries(PS)
+    for p in R.perms(n)[lo:hi]:
+        for name in sorted(METHODS):
+            if n < MIN_LEN.get(name, 0):
+                continue
+            kind, ref, _dev = METHODS[name]
+            for args in arg_sets(name, n):
+                exp = expected(kind, ref, p, args)
+                for form in forms:
+                    check_method(part, Perm, p, name, args, form=form, sub="forms", exp=exp)
+                    part.add(1, 1 if nontrivial_value(exp) else 0)
+                if args and name in STEP_METHODS:
+                    check_method(part, Perm, p, name, (), kwargs={"step_size": args[0]},
+                                 sub="forms", exp=exp)
+                    part.add(1, 1 if nontrivial_value(exp) else 0)
+        # the table functions on every form
+        ref_v, dev_v = D.table_values(p)
+        for form in forms:
+            make = perm_forms(Perm)[form]
+            for i, name, func in ents:
+                j = D.NAMES.index(name)
+                case = {"stat": name, "perm": list(p), "form": form}
+                try:
+                    got = func(make(p))
+                except Exception as exc:  # noqa
+                    part.violation("forms", case, {"exception": repr(exc)})
+                    continue
+                if got != ref_v[j]:
+                    report(part, "forms", case, {"expected": ref_v[j], "got": got},
+                           SIG[name] if (name in SIG and got == dev_v[j]) else None)
+                part.add(1, 1 if ref_v[j] else 0)
+    return part
+
+
+def shard_forms_tools(shard):
+    part = Partial()
+    for what in shard:
+        if what[0] == "dist":
+            _, basis, nmax, form = what
+            run_dist_case(part, basis, nmax, form=form, sub="forms")
+        elif what[0] == "pair":
+            _, tool, b1, b2, n, dim, form = what
+            part.add(1, run_pair_case(part, tool, b1, b2, n, dim, form=form, sub="forms"))
+        else:
+            _, label, pairs, tools, form = what
+            part.add(len(tools), run_bij_case(part, label, pairs, tools, form=form, sub="forms"))
+    return part
+
+
+# --------------------------------------------------------------------------------------------
+# FRESH: damage every mutable container that was returned, then ask again along several routes
+# --------------------------------------------------------------------------------------------
+
+def damage(x):
+    """In-place damage at every nesting level (members first)."""
+    import collections
+    if isinstance(x, (list, collections.deque)):
+        for y in list(x):
+            damage(y)
+        x.reverse()
+        x.append(-7)
+        if len(x) > 1:
+            del x[0]
+    elif isinstance(x, dict):
+        for y in list(x.values()):
+            damage(y)
+        x.clear()
+        x["damaged"] = -7
+    elif isinstance(x, set):
+        x.clear()
+        x.add(-7)
+    elif isinstance(x, tuple):
+        for y in x:
+            damage(y)
+
+
+def materialise(raw):
+    """generators / iterators are consumed into a list (their MEMBERS may still be shared)."""
+    import collections
+    if isinstance(raw, (list, tuple, dict, set, collections.deque, int, bool)) or raw is None:
+        return raw
+    return list(raw)
+
+
+CONTAINER_KINDS = ("seq", "set", "runs", "layers", "cycles", "counter3", "counter4")
+
+
+def fresh_method_case(part, Perm, p, name, args, times=1):
+    """query, compare, damage the result, query again: same object, a new equal object, the
+    shared object handed out by Perm.to_standard, and every alias / sibling method registered with
+    the same reference."""
+    kind, ref, dev = METHODS[name]
+    exp = expected(kind, ref, p, args)
+    exp_dev = expected(kind, dev, p, args) if dev is not None else None
+    siblings = [nm for nm in sorted(METHODS) if METHODS[nm][1] is ref and METHODS[nm][0] == kind]
+    case = {"method": name, "args": list(args), "perm": list(p)}
+    for _ in range(times):
+        obj = Perm(p)
+        shared = Perm.to_standard([3 * v + 1 for v in p])
+        try:
+            raw = materialise(getattr(obj, name)(*args))
+            got = observe(kind, raw, p, Perm)
+        except Exception as exc:  # noqa
+            part.violation("fresh", case, {"exception": repr(exc)})
+            return exp
+        if got != exp and got != exp_dev:
+            part.violation("fresh", case, {"route": "first call", "expected": exp, "got": got})
+            return exp
+        damage(raw)
+        for route, target in (("same object", obj), ("new equal object", Perm(p)),
+                              ("Perm.to_standard object", shared)):
+            for nm in siblings:
+                try:
+                    again = observe(kind, materialise(getattr(target, nm)(*args)), p, Perm)
+                except Exception as exc:  # noqa
+                    again = ["exception", repr(exc)]
+                if again != exp and again != exp_dev:
+                    part.violation("fresh", case, {"after_damaging_the_result_of": name,
+                                                   "route": route, "asked": nm,
+                                                   "expected": exp, "got": again})
+                    return exp
+    return exp
+
+
+def shard_fresh_methods(shard):
+    n, lo, hi = shard
+    Perm, PS = _lib()
+    part = Partial()
+    names = [nm for nm in sorted(METHODS) if METHODS[nm][0] in CONTAINER_KINDS]
+    for p in R.perms(n)[lo:hi]:
+        for name in names:
+            if n < MIN_LEN.get(name, 0):
+                continue
+            for args in arg_sets(name, n):
+                exp = fresh_method_case(part, Perm, p, name, args)
+                part.add(1, 1 if nontrivial_value(exp) else 0)
+    return part
+
+
+def fresh_tool_case(part, what, times=1):
+    """tools returning lists / dicts: distribution tables, check_all_transformed,
+    symmetry_duplication."""
+    Perm, PS = _lib()
+    ents = table_entries(PS)
+    for _ in range(times):
+        if what[0] == "dist":
+            _, basis, nmax = what
+            cls = mk_class(basis) if basis is not None else None
+            data = [R.perms(n) for n in range(nmax + 1)] if cls is None else class_data(cls, nmax)
+            for i, name, _f in ents:
+                j = D.NAMES.index(name)
+                st = PS.get_by_index(i)
+                case = {"tool": "distribution", "basis": basis, "n": nmax, "stat": name}
+                n0 = part.nviol
+                try:
+                    first = st.distribution_for_length(nmax, cls)
+                    check_distribution(part, "fresh", dict(case, route="first call"), first,
+                                       data[nmax], j, name)
+                    damage(first)
+                    rows = st.distribution_up_to(nmax, cls)
+                    for n in range(nmax + 1):
+                        check_distribution(part, "fresh", dict(case, route="up_to after damage", row=n),
+                                           rows[n], data[n], j, name)
+                    damage(rows)
+                    for route, s2 in (("same statistic object", st),
+                                      ("new statistic object", PS.get_by_index(i))):
+                        check_distribution(part, "fresh", dict(case, route=route),
+                                           s2.distribution_for_length(nmax, cls), data[nmax], j, name)
+                        rows2 = s2.distribution_up_to(nmax, cls)
+                        for n in range(nmax + 1):
+                            check_distribution(part, "fresh", dict(case, route=route + " up_to", row=n),
+                                               rows2[n], data[n], j, name)
+                except Exception as exc:  # noqa
+                    part.violation("fresh", case, {"exception": repr(exc)})
+                if part.nviol != n0 and times > 1:
+                    return
+        else:
+            _, label, pairs = what
+            pairs = [(tuple(k), tuple(v)) for k, v in pairs]
+            bij = mk_bij(Perm, pairs)
+            before = [(tuple(k), tuple(v)) for k, v in bij.items()]
+            n0 = part.nviol
+            try:
+                out = PS.check_all_transformed(bij)
+                damage(out)
+                dups = list(PS.symmetry_duplication(bij))
+                damage(dups)
+            except Exception as exc:  # noqa
+                part.violation("fresh", {"tool": "check_all_transformed", "label": label,
+                                         "pairs": [[list(k), list(v)] for k, v in pairs]},
+                               {"exception": repr(exc)})
+                continue
+            if [(tuple(k), tuple(v)) for k, v in bij.items()] != before:
+                part.violation("fresh", {"tool": "symmetry_duplication", "label": label,
+                                         "pairs": [[list(k), list(v)] for k, v in pairs]},
+                               {"the_callers_dict_was_changed": True})
+            # ask again: same dict and a new equal dict
+            run_bij_case(part, label, pairs, ("check_all_transformed", "symmetry_duplication",
+                                              "check_all_preservations"), sub="fresh")
+            if part.nviol != n0 and times > 1:
+                return
+
+
+def shard_fresh_tools(shard):
+    part = Partial()
+    for what in shard:
+        fresh_tool_case(part, what)
+        part.add(1, 1)
+    return part
+
+
+# --------------------------------------------------------------------------------------------
+# ABORT: a BaseException raised at the k-th call event inside an operation (every k), then read back
+# --------------------------------------------------------------------------------------------
+
+class _Abort(BaseException):
+    pass
+
+
+def _run_with_abort(fn, k, root):
+    """Run fn(); raise _Abort at the k-th 'call' event of a frame whose code lives under root
+    (k=None: never).  Returns (finished?, number of such events seen)."""
+    import sys
+    seen = [0]
+
+    def tracer(frame, event, arg):
+        if event == "call" and frame.f_code.co_filename.startswith(root):
+            seen[0] += 1
+            if seen[0] == k:
+                sys.settrace(None)
+                raise _Abort()
+        return None
+
+    sys.settrace(tracer)
+    try:
+        fn()
+        return True, seen[0]
+    except _Abort:
+        return False, seen[0]
+    finally:
+        sys.settrace(None)
+
+
+class _LibState:
+    """Every piece of process-wide state of the library that a call could have written: mutable
+    containers and plain values bound at module or class level in permuta.*, and every lru_cache.
+    Taken once before an operation is explored, put back before every attempt, so that each
+    injection point is explored from the same state (a memo filled by the read-back of the previous
+    attempt would otherwise hide all later injection points)."""
+
+    def __init__(self):
+        import collections
+        import copy
+        import sys
+        self.conts, self.caches, self.scalars = [], [], []
+        for mname, mod in sorted(sys.modules.items()):
+            if mod is None or not (mname == "permuta" or mname.startswith("permuta.")):
+                continue
+            owners = [mod] + [v for v in vars(mod).values()
+                              if isinstance(v, type) and getattr(v, "__module__", None) == mname]
+            for owner in owners:
+                for k, v in list(vars(owner).items()):
+                    if k.startswith("__"):
+                        continue
+                    f = getattr(v, "__func__", v)
+                    if hasattr(f, "cache_clear"):
+                        self.caches.append(f)
+                    elif isinstance(v, (dict, list, set, collections.deque)):
+                        self.conts.append((v, copy.copy(v)))
+                    elif isinstance(v, (int, float, str, bytes, tuple, frozenset, type(None))):
+                        self.scalars.append((owner, k, v))
+
+    def restore(self):
+        import collections
+        for f in self.caches:
+            f.cache_clear()
+        for c, saved in self.conts:
+            if isinstance(c, dict):
+                c.clear()
+                c.update(saved)
+            elif isinstance(c, list):
+                c[:] = saved
+            elif isinstance(c, set):
+                c.clear()
+                c.update(saved)
+            elif isinstance(c, collections.deque):
+                c.clear()
+                c.extend(saved)
+        for owner, k, v in self.scalars:
+            try:
+                if getattr(owner, k, None) is not v:
+                    setattr(owner, k, v)
+            except Exception:  # noqa - read-only attribute: cannot have been written either
+                pass
+
+
+ABORT_OBSERVERS = ("count_inversions", "cycle_decomp", "order", "rtlmax_ltrmin_decomposition",
+                   "longestruns_ascending", "descent_set", "holeyness", "count_stack_sorts",
+                   "rank_encoding", "count_bounces")
+
+
+def _consume(x):
+    import collections
+    if isinstance(x, (list, tuple, dict, set, collections.deque, int, bool, str)) or x is None:
+        return x
+    return list(x)
+
+
+def _read_back_perm(Perm, objs, p, names):
+    """first disagreement of the methods `names` on the objects `objs` (all equal to p), or None"""
+    for route, obj in objs:
+        for nm in names:
+            if len(p) < MIN_LEN.get(nm, 0):
+                continue
+            kind, ref, dev = METHODS[nm]
+            exp = expected(kind, ref, p, ())
+            got = observe(kind, getattr(obj, nm)(), p, Perm)
+            if got != exp and not (dev is not None and got == expected(kind, dev, p, ())):
+                return {"route": route, "asked": nm, "expected": exp, "got": got}
+    return None
+
+
+def abort_ops(quick):
+    """The operations that are aborted: (descriptor, ...) JSON-able."""
+    ops = []
+    for n in range(0, 5):
+        for p in R.perms(n):
+            for name in sorted(METHODS):
+                if n < MIN_LEN.get(name, 0):
+                    continue
+                ops.append(["method", name, list(p)])
+    tools = []
+    for basis in (None, [[0, 2, 1]]):
+        for j in range(len(D.NAMES)):
+            tools.append(["distribution_for_length", j, basis, 3])
+    for j in range(len(D.NAMES)):
+        tools.append(["distribution_up_to", j, [[0, 1, 2]], 2])
+        tools.append(["preserved_in", j, "complement", 3])
+    tools.append(["check_all_preservations", None, "reverse", 2])
+    tools.append(["equally_distributed", None, [[[0, 1, 2]], [[0, 2, 1]]], 1 if quick else 2])
+    tools.append(["jointly_equally_distributed", None, [[[0, 1]], [[1, 0]]], 1 if quick else 2])
+    tools.append(["symmetry_duplication", None, "inverse", 3])
+    if not quick:
+        tools.append(["check_all_transformed", None, "reverse", 2])
+        tools.append(["equally_distributed", None, [[[1, 0, 2]], [[2, 0, 1]]], 3])
+        tools.append(["check_all_preservations", None, "rot90", 3])
+    return ops, tools
+
+
+def _tool_setup(op, Perm, PS):
+    """-> (thunk running the tool, Perm objects that go through it, read-back(part, case),
+    warm-up thunk: the same tool on neighbouring arguments)"""
+    kind, j, arg, n = op
+    ents = table_entries(PS)
+    by_j = {D.NAMES.index(name): (i, name) for i, name, _ in ents}
+    if kind in ("distribution_for_length", "distribution_up_to"):
+        i, name = by_j[j]
+        st = PS.get_by_index(i)
+        cls = mk_class(arg) if arg is not None else None
+        objs = [] if cls is None else [q for m in range(n + 1) for q in cls.of_length(m)]
+
+        def thunk():
+            if kind == "distribution_for_length":
+                return st.distribution_for_length(n, cls)
+            return st.distribution_up_to(n, cls)
+
+        def verify(part, case):
+            run_dist_case(part, arg, n, stat_names={name}, sub="abort")
+
+        def warm():
+            i2 = by_j[(j + 1) % len(D.NAMES)][0] if (j + 1) % len(D.NAMES) in by_j else i
+            for st2 in (PS.get_by_index(i2), st):
+                st2.distribution_for_length(n, mk_class([[1, 0, 2]]))
+                st2.distribution_for_length(max(n - 1, 0), cls)
+        return thunk, objs, verify, warm
+    if kind in ("equally_distributed", "jointly_equally_distributed"):
+        c1, c2 = mk_class(arg[0]), mk_class(arg[1])
+        objs = [q for c in (c1, c2) for m in range(n + 1) for q in c.of_length(m)]
+
+        def thunk():
+            if kind == "equally_distributed":
+                return list(PS.equally_distributed(c1, c2, n))
+            return list(PS.jointly_equally_distributed(c1, c2, n, 1))
+
+        def verify(part, case):
+            run_pair_case(part, kind, arg[0], arg[1], n, 1, sub="abort")
+
+        def warm():
+            w1, w2 = mk_class([[1, 0]]), mk_class([[1, 2, 0]])
+            list(PS.equally_distributed(w1, w2, n))
+        return thunk, objs, verify, warm
+    pairs = [(p, R.apply_sym(arg, p)) for p in R.perms(n)]
+    bij = mk_bij(Perm, pairs)
+    objs = list(bij.keys()) + list(bij.values())
+
+    def thunk():
+        if kind == "preserved_in":
+            return PS.get_by_index(by_j[j][0]).preserved_in(bij)
+        if kind == "check_all_preservations":
+            return list(PS.check_all_preservations(bij))
+        if kind == "check_all_transformed":
+            return PS.check_all_transformed(bij)
+        return list(PS.symmetry_duplication(bij))
+
+    def verify(part, case):
+        tool = kind
+        # asked again on the SAME dict (its key objects went through the aborted call) ...
+        ents2 = table_entries(PS)
+        if tool == "preserved_in":
+            got = {name for i, name, _ in ents2 if PS.get_by_index(i).preserved_in(bij)}
+            exp = [{name for _, name, _ in ents2
+                    if all(vec(k, w)[D.NAMES.index(name)] == vec(v, w)[D.NAMES.index(name)]
+                           for k, v in pairs)} for w in (0, 1)]
+            attribute(part, "abort", case, got, exp[0], exp[1], lambda e: (e,))
+        # ... and on a new equal dict
+        run_bij_case(part, "sym:%s:S%d" % (arg, n), pairs,
+                     (tool,) if tool != "preserved_in" else ("preserved_in", "check_all_preservations"),
+                     sub="abort")
+
+    def warm():
+        wb = mk_bij(Perm, [(p, R.apply_sym("rot270", p)) for p in R.perms(max(n - 1, 0))])
+        if kind == "preserved_in":
+            for i2 in sorted({by_j[j][0], by_j[(j + 1) % len(D.NAMES)][0]
+                              if (j + 1) % len(D.NAMES) in by_j else by_j[j][0]}):
+                PS.get_by_index(i2).preserved_in(wb)
+        elif kind == "check_all_preservations":
+            list(PS.check_all_preservations(wb))
+        elif kind == "check_all_transformed":
+            PS.check_all_transformed(wb)
+        else:
+            list(PS.symmetry_duplication(wb))
+    return thunk, objs, verify, warm
+
+
+def abort_case(part, op, k_list=None):
+    """All injection points (or those in k_list) of one operation.  Returns number of points."""
+    import os
+    import signal
+    import sys
+    from ..core import REPO
+    Perm, PS = _lib()
+    root = os.path.join(os.path.abspath(REPO), "permuta") + os.sep
+
+    clean = _LibState()
+
+    def setup():
+        """library state as before the operation, then one call of the same functionality on a
+        DIFFERENT input (so that anything left over from 'the previous call' is wrong for this
+        one), then the objects of this attempt"""
+        clean.restore()
+        if op[0] == "method":
+            _, name, p = op
+            p = tuple(p)
+            q = tuple(reversed(p)) if tuple(reversed(p)) != p else tuple(range(len(p) + 1))
+            if len(q) >= MIN_LEN.get(name, 0):
+                _consume(getattr(Perm(q), name)())
+            obj = Perm(p)
+            shared = Perm.to_standard([5 * v + 2 for v in p])
+            return (lambda: _consume(getattr(obj, name)()),
+                    lambda: _consume(getattr(shared, name)()), obj, shared, p, name)
+        st = _tool_setup(op, Perm, PS)
+        st[3]()
+        return st[:3]
+
+    st = setup()
+    _, total = _run_with_abort(st[0], None, root)
+
+    def on_alarm(signum, frame):
+        raise TimeoutError("read-back did not finish within 20 s")
+
+    old = signal.signal(signal.SIGALRM, on_alarm)
+    old_hook = sys.unraisablehook
+    sys.unraisablehook = lambda unraisable: None
+    try:
+        for k in (k_list if k_list is not None else range(1, total + 1)):
+            case = {"op": op, "abort_at_call": k}
+            st = setup()
+            finished, _ = _run_with_abort(st[0], k, root)
+            if op[0] == "method":
+                # the same injection point on the process-wide shared object of Perm.to_standard
+                _run_with_abort(st[1], k, root)
+            signal.alarm(20)
+            n0 = part.nviol
+            try:
+                if op[0] == "method":
+                    _, _, obj, shared, p, name = st
+                    bad = _read_back_perm(Perm, [("aborted object", obj), ("shared to_standard object", shared),
+                                                 ("new equal object", Perm(p))], p,
+                                          [name] + [o for o in ABORT_OBSERVERS if o != name])
+                    if bad:
+                        part.violation("abort", case, bad)
+                else:
+                    thunk, objs, verify = st
+                    verify(part, case)
+                    for q in objs:
+                        bad = _read_back_perm(Perm, [("object that went through the aborted call", q)],
+                                              tuple(q), ABORT_OBSERVERS)
+                        if bad:
+                            part.violation("abort", case, bad)
+                            break
+            except TimeoutError as exc:
+                part.violation("abort", case, {"hang": str(exc)})
+            except Exception as exc:  # noqa
+                part.violation("abort", case, {"exception_in_read_back": repr(exc)})
+            finally:
+                signal.alarm(0)
+            # violations recorded by the shared helpers carry their own case: re-label them
+            if part.nviol != n0:
+                for v in part.viols:
+                    if v["sub"] == "abort" and "abort_at_call" not in v["case"]:
+                        v["detail"] = {"read_back_case": v["case"], "detail": v["detail"]}
+                        v["case"] = jsonable_case(case)
+            part.add(1, 0 if finished else 1)
+    finally:
+        signal.signal(signal.SIGALRM, old)
+        sys.unraisablehook = old_hook
+    return total
+
+
+def jsonable_case(case):
+    from ..core import jsonable
+    return jsonable(case)
+
+
+def shard_abort(shard):
+    part = Partial()
+    for op in shard:
+        total = abort_case(part, op)
+        part.bump("abort_points", total)
+        part.bump("abort_operations", 1)
+    return part
+
+
 def chunks(n, per):
     total = math.factorial(n)
     return [(lo, min(total, lo + per)) for lo in range(0, total, per)]
@@ -512,9 +1085,65 @@ def no_dups(part, sub, case, lst):
     return True
 
 
-def mk_class(basis):
+class _Duck:
+    """A 'class given as data': only of_length, answering from a fixed table (reference avoiders)."""
+
+    def __init__(self, basis, how, Perm):
+        self.basis, self.how, self.Perm = [tuple(b) for b in basis], how, Perm
+
+    def data(self, n):
+        return [p for p in R.perms(n) if not any(D.contains(p, b) for b in self.basis)]
+
+    def of_length(self, n):
+        perms = [self.Perm(p) for p in self.data(n)]
+        if self.how == "list":
+            return perms
+        if self.how == "tuple":
+            return tuple(perms)
+        if self.how == "iterator":
+            return iter(perms)
+        return (q for q in perms)
+
+
+CLASS_FORMS = ("Av(list)", "Av(reversed tuple)", "Av(iterator)", "Av(set)", "Av(list, repeated)",
+               "Av.from_iterable(generator)", "Av(Basis.from_iterable)", "Av.from_string 0-based",
+               "Av.from_string 1-based", "Av(Basis)/keywords", "duck list", "duck tuple",
+               "duck iterator", "duck generator")
+
+
+def mk_class(basis, form=None):
     from permuta import Av, Basis, Perm
-    return Av(Basis(*[Perm(b) for b in basis]))
+    ps = [Perm(b) for b in basis]
+    form = (form or "Av(Basis)").split("/")[0]
+    if form == "Av(Basis)":
+        return Av(Basis(*ps))
+    if form == "Av(list)":
+        return Av(ps)
+    if form == "Av(reversed tuple)":
+        return Av(tuple(reversed(ps)))
+    if form == "Av(iterator)":
+        return Av(iter(ps))
+    if form == "Av(set)":
+        return Av(set(ps))
+    if form == "Av(list, repeated)":
+        return Av(ps + [Perm(basis[0])])
+    if form == "Av.from_iterable(generator)":
+        return Av.from_iterable(q for q in ps)
+    if form == "Av(Basis.from_iterable)":
+        return Av(Basis.from_iterable(iter(ps)))
+    if form == "Av.from_string 0-based":
+        return Av.from_string("_".join("".join(map(str, b)) for b in basis))
+    if form == "Av.from_string 1-based":
+        return Av.from_string(", ".join("".join(str(v + 1) for v in b) for b in basis))
+    if form.startswith("duck "):
+        return _Duck(basis, form.split()[1], Perm)
+    raise ValueError(form)
+
+
+def class_data(cls, nmax):
+    if isinstance(cls, _Duck):
+        return [cls.data(n) for n in range(nmax + 1)]
+    return [[tuple(q) for q in cls.of_length(n)] for n in range(nmax + 1)]
 
 
 # ---- distributions -------------------------------------------------------------------------
@@ -538,45 +1167,49 @@ def check_distribution(part, sub, case, got, data, j, name):
     return exp
 
 
-def run_dist_case(part, basis, nmax, stat_names=None):
+def run_dist_case(part, basis, nmax, stat_names=None, form=None, sub="dist"):
     Perm, PS = _lib()
-    cls = mk_class(basis) if basis is not None else None
-    data = []
-    for n in range(nmax + 1):
-        if cls is None:
-            data.append(R.perms(n))
-        else:
-            data.append([tuple(q) for q in cls.of_length(n)])
+    cls = mk_class(basis, form) if basis is not None else None
+    kw = bool(form) and form.endswith("/keywords")
+    data = [R.perms(n) for n in range(nmax + 1)] if cls is None else class_data(cls, nmax)
     for i, name, _func in table_entries(PS):
         if stat_names is not None and name not in stat_names:
             continue
         j = D.NAMES.index(name)
         st = PS.get_by_index(i)
         for n in range(nmax + 1):
-            case = {"tool": "distribution_for_length", "basis": basis, "n": n, "stat": name}
+            case = dict({"tool": "distribution_for_length", "basis": basis, "n": n, "stat": name},
+                        **({"form": form} if form else {}))
             try:
-                got = st.distribution_for_length(n, cls) if cls is not None else \
-                    st.distribution_for_length(n)
+                if kw:
+                    got = st.distribution_for_length(n=n, perm_class=cls)
+                else:
+                    got = st.distribution_for_length(n, cls) if cls is not None else \
+                        st.distribution_for_length(n)
             except Exception as exc:  # noqa
-                part.violation("dist", case, {"exception": repr(exc)})
+                part.violation(sub, case, {"exception": repr(exc)})
                 continue
-            exp = check_distribution(part, "dist", case, got, data[n], j, name)
+            exp = check_distribution(part, sub, case, got, data[n], j, name)
             part.add(1, 1 if len(exp) >= 2 else 0)
-        case = {"tool": "distribution_up_to", "basis": basis, "n": nmax, "stat": name}
+        case = dict({"tool": "distribution_up_to", "basis": basis, "n": nmax, "stat": name},
+                    **({"form": form} if form else {}))
         try:
-            rows = st.distribution_up_to(nmax, cls) if cls is not None else \
-                st.distribution_up_to(nmax)
+            if kw:
+                rows = st.distribution_up_to(n=nmax, perm_class=cls)
+            else:
+                rows = st.distribution_up_to(nmax, cls) if cls is not None else \
+                    st.distribution_up_to(nmax)
             rows = list(rows)
         except Exception as exc:  # noqa
-            part.violation("dist", case, {"exception": repr(exc)})
+            part.violation(sub, case, {"exception": repr(exc)})
             rows = None
         if rows is not None and len(rows) != nmax + 1:
-            part.violation("dist", case, {"rows": len(rows), "expected_rows": nmax + 1})
+            part.violation(sub, case, {"rows": len(rows), "expected_rows": nmax + 1})
         elif rows is not None:
             for n in range(nmax + 1):
                 c2 = dict(case)
                 c2["row"] = n
-                check_distribution(part, "dist", c2, rows[n], data[n], j, name)
+                check_distribution(part, sub, c2, rows[n], data[n], j, name)
         part.add(1, 1 if nmax >= 3 else 0)
 
 
@@ -605,36 +1238,43 @@ def _counters(data, idxs, which):
     return [Counter(tuple(vec(p, which)[j] for j in idxs) for p in level) for level in data]
 
 
-def run_pair_case(part, tool, b1, b2, n, dim):
+def run_pair_case(part, tool, b1, b2, n, dim, form=None, sub="classes"):
     """One call of a two-class tool.  Returns 1 if the case is non-trivial (the expected answer is
     neither empty nor everything)."""
     Perm, PS = _lib()
-    c1, c2 = mk_class(b1), mk_class(b2)
+    c1, c2 = mk_class(b1, form), mk_class(b2, form)
+    kw = bool(form) and form.endswith("/keywords")
     ents = table_entries(PS)
     known = {name for _, name, _ in ents}
     idx = {name: D.NAMES.index(name) for name in known}
     case = {"tool": tool, "basis1": b1, "basis2": b2, "n": n, "dim": dim}
-    d1, d2 = _level_data(c1, n), _level_data(c2, n)
+    if form:
+        case["form"] = form
+    d1, d2 = class_data(c1, n), class_data(c2, n)
     try:
-        if tool == "equally_distributed":
+        if kw and tool == "equally_distributed":
+            out = list(PS.equally_distributed(class1=c1, class2=c2, n=n))
+        elif kw and tool == "jointly_equally_distributed":
+            out = list(PS.jointly_equally_distributed(class1=c1, class2=c2, n=n, dim=dim))
+        elif tool == "equally_distributed":
             out = list(PS.equally_distributed(c1, c2, n))
         elif tool == "jointly_equally_distributed":
             out = list(PS.jointly_equally_distributed(c1, c2, n, dim))
         else:
             out = list(PS.jointly_transformed_equally_distributed(c1, c2, n, dim))
     except Exception as exc:  # noqa
-        part.violation("classes", case, {"exception": repr(exc)})
+        part.violation(sub, case, {"exception": repr(exc)})
         return 0
     out = [x if isinstance(x, str) else tuple(tuple(y) if not isinstance(y, str) else y for y in x)
            for x in out]
-    if not no_dups(part, "classes", case, out):
+    if not no_dups(part, sub, case, out):
         return 0
     if tool == "equally_distributed":
         got = {x for x in out if x in known}
         exp = [{name for _, name, _ in ents
                 if _counters(d1, (idx[name],), w) == _counters(d2, (idx[name],), w)}
                for w in (0, 1)]
-        attribute(part, "classes", case, got, exp[0], exp[1], lambda e: (e,))
+        attribute(part, sub, case, got, exp[0], exp[1], lambda e: (e,))
         return 1 if 0 < len(exp[0]) < len(ents) else 0
     if tool == "jointly_equally_distributed":
         # a combination is unordered: a reported tuple is read in table order
@@ -647,7 +1287,7 @@ def run_pair_case(part, tool, b1, b2, n, dim):
                         for combo in itertools.combinations(ents, dim)
                         if _counters(d1, tuple(idx[e[1]] for e in combo), w)
                         == _counters(d2, tuple(idx[e[1]] for e in combo), w)})
-        attribute(part, "classes", case, got, exp[0], exp[1], lambda e: e)
+        attribute(part, sub, case, got, exp[0], exp[1], lambda e: e)
         return 1 if 0 < len(exp[0]) < math.comb(len(ents), dim) else 0
     # jointly_transformed_equally_distributed.  Soundness is demanded of every reported pair;
     # completeness only of the pairs (s1 before s2 in the order of itertools.permutations of the
@@ -664,7 +1304,7 @@ def run_pair_case(part, tool, b1, b2, n, dim):
                     holds[w].add((tuples[x], tuples[y]))
                     if x < y:
                         must[w].add((tuples[x], tuples[y]))
-    attribute(part, "classes", case, got, (got & holds[0]) | must[0], (got & holds[1]) | must[1],
+    attribute(part, sub, case, got, (got & holds[0]) | must[0], (got & holds[1]) | must[1],
               lambda e: e[0] + e[1])
     return 1 if 0 < len(must[0]) < len(tuples) * (len(tuples) - 1) // 2 else 0
 
@@ -719,7 +1359,35 @@ def bij_family_upto(n):
     return fam
 
 
-def run_bij_case(part, label, pairs, tools):
+BIJ_FORMS = ("dict reversed insertion", "OrderedDict", "MappingProxyType", "dict subclass",
+             "keys built from lists", "dict/keywords")
+
+
+class _MyDict(dict):
+    pass
+
+
+def mk_bij(Perm, pairs, form=None):
+    import collections
+    import types
+    form = (form or "dict").split("/")[0]
+    items = [(Perm(k), Perm(v)) for k, v in pairs]
+    if form == "dict":
+        return dict(items)
+    if form == "dict reversed insertion":
+        return dict(reversed(list(dict(items).items())))
+    if form == "OrderedDict":
+        return collections.OrderedDict(items)
+    if form == "MappingProxyType":
+        return types.MappingProxyType(dict(items))
+    if form == "dict subclass":
+        return _MyDict(items)
+    if form == "keys built from lists":
+        return {Perm(list(k)): Perm(iter(v)) for k, v in pairs}
+    raise ValueError(form)
+
+
+def run_bij_case(part, label, pairs, tools, form=None, sub="bijections"):
     """pairs: list of (key tuple, value tuple).  tools: subset of
     {'preserved_in', 'check_all_preservations', 'check_all_transformed', 'symmetry_duplication'}."""
     Perm, PS = _lib()
@@ -727,31 +1395,36 @@ def run_bij_case(part, label, pairs, tools):
     ents = table_entries(PS)
     known = {name for _, name, _ in ents}
     nt = 0
-    bij = {Perm(k): Perm(v) for k, v in pairs}
+    bij = mk_bij(Perm, pairs, form)
+    kw = bool(form) and form.endswith("/keywords")
     items = list(dict(pairs).items())     # later duplicates of a key win, as in the dict above
     pres = [{name for _, name, _ in ents
              if all(vec(k, w)[D.NAMES.index(name)] == vec(v, w)[D.NAMES.index(name)]
                     for k, v in items)} for w in (0, 1)]
     base = {"label": label, "pairs": [[list(k), list(v)] for k, v in pairs]}
+    if form:
+        base["form"] = form
     def call(case, thunk):
         """the library call alone is guarded: an exception there is an observation"""
         try:
             return True, thunk()
         except Exception as exc:  # noqa
-            part.violation("bijections", case, {"exception": repr(exc)})
+            part.violation(sub, case, {"exception": repr(exc)})
             return False, None
 
     if "preserved_in" in tools:
         case = dict(base, tool="preserved_in")
         ok, got = call(case, lambda: {name for i, name, _ in ents
-                                      if PS.get_by_index(i).preserved_in(bij)})
+                                      if (PS.get_by_index(i).preserved_in(bijection=bij) if kw
+                                          else PS.get_by_index(i).preserved_in(bij))})
         if ok:
-            attribute(part, "bijections", case, got, pres[0], pres[1], lambda e: (e,))
+            attribute(part, sub, case, got, pres[0], pres[1], lambda e: (e,))
     if "check_all_preservations" in tools:
         case = dict(base, tool="check_all_preservations")
-        ok, out = call(case, lambda: list(PS.check_all_preservations(bij)))
-        if ok and no_dups(part, "bijections", case, out):
-            attribute(part, "bijections", case, {x for x in out if x in known},
+        ok, out = call(case, lambda: list(PS.check_all_preservations(bijection=bij) if kw
+                                     else PS.check_all_preservations(bij)))
+        if ok and no_dups(part, sub, case, out):
+            attribute(part, sub, case, {x for x in out if x in known},
                       pres[0], pres[1], lambda e: (e,))
     if "check_all_transformed" in tools:
         case = dict(base, tool="check_all_transformed")
@@ -762,12 +1435,13 @@ def run_bij_case(part, label, pairs, tools):
             exp.append({(ents[a][1], ents[b][1]) for a in range(len(ents))
                         for b in range(len(ents)) if cols_k[a] == cols_v[b]})
         ok, out = call(case, lambda: {a: list(lst) for a, lst in
-                                      PS.check_all_transformed(bij).items()})
+                                      (PS.check_all_transformed(bijection=bij) if kw
+                                       else PS.check_all_transformed(bij)).items()})
         if ok:
             flat = [(a, b) for a, lst in out.items() for b in lst]
-            if no_dups(part, "bijections", case, flat):
+            if no_dups(part, sub, case, flat):
                 # a key with an empty list reports nothing: not demanded either way
-                attribute(part, "bijections", case,
+                attribute(part, sub, case,
                           {e for e in flat if e[0] in known and e[1] in known},
                           exp[0], exp[1], lambda e: e)
         if 0 < len(exp[0]) < len(ents) ** 2:
@@ -775,12 +1449,13 @@ def run_bij_case(part, label, pairs, tools):
     if "symmetry_duplication" in tools:
         case = dict(base, tool="symmetry_duplication")
         ok, out = call(case, lambda: [sorted((tuple(k), tuple(v)) for k, v in d.items())
-                                      for d in PS.symmetry_duplication(bij)])
+                                      for d in (PS.symmetry_duplication(bijection=bij) if kw
+                                                else PS.symmetry_duplication(bij))])
         if ok:
             exp_sd = [sorted((R.apply_sym(s, k), R.apply_sym(s, v)) for k, v in items)
                       for s in R.SYMS]
             if sorted(out) != sorted(exp_sd):
-                part.violation("bijections", case, {"expected": sorted(exp_sd)[:3],
+                part.violation(sub, case, {"expected": sorted(exp_sd)[:3],
                                                     "got": sorted(out)[:3], "n_got": len(out)})
     if 0 < len(pres[0]) < len(ents):
         nt = 1
@@ -1156,6 +1831,74 @@ def run(ctx, only=None):
             "tools": list(all_tools)}
         ctx.section("bijections", evaluations=ctx.evals - e0)
 
+    # ---- FORMS / FRESH / ABORT -------------------------------------------------------------------
+    singles = [b for b in pool if len(b) == 1]
+    if want("forms"):
+        e0 = ctx.evals
+        nf = 5 if quick else 6
+        ctx.pmap(shard_forms_methods, [(n, lo, hi) for n in range(nf + 1)
+                                       for lo, hi in chunks(n, {0: 1, 1: 1, 2: 2, 3: 6, 4: 6, 5: 8, 6: 24}[n])])
+        fpool = singles + [pool[i] for i in (12, 20, 30, 40)]
+        cases = []
+        for form in CLASS_FORMS:
+            for b in (fpool if not quick else singles + [pool[20]]):
+                cases.append(("dist", b, 3 if quick else 4, form))
+            for b1, b2 in itertools.combinations_with_replacement(singles[3:], 2):
+                cases.append(("pair", "equally_distributed", b1, b2, 3, 1, form))
+            for b1, b2 in itertools.combinations(singles[3:6], 2):
+                cases.append(("pair", "jointly_equally_distributed", b1, b2, 3, 2, form))
+        all_tools = ("preserved_in", "check_all_preservations", "check_all_transformed",
+                     "symmetry_duplication")
+        for form in BIJ_FORMS:
+            for n in range(0, 4):
+                for label, pairs in bij_family(n):
+                    cases.append(("bij", label, pairs, all_tools, form))
+        ctx.pmap(shard_forms_tools, split(cases, 96))
+        ctx.bounds["forms"] = {
+            "perm_forms": sorted(perm_forms(Perm)), "methods": "every method (and table function) x every "
+            "form x all permutations of length <= %d; step sizes also by keyword" % nf,
+            "class_forms": list(CLASS_FORMS), "class_tools": "distribution_for_length/up_to (n<=%d, %d bases), "
+            "equally_distributed (21 pairs of length-3 classes, n=3), jointly_equally_distributed (dim 2, 3 pairs)"
+            % (3 if quick else 4, len(singles) + 1 if quick else len(fpool)),
+            "bijection_forms": list(BIJ_FORMS), "bijection_tools": "4 tools x bijection families on S_n, n<=3"}
+        ctx.section("forms", evaluations=ctx.evals - e0)
+
+    if want("fresh"):
+        e0 = ctx.evals
+        nf = 5 if quick else 6
+        ctx.pmap(shard_fresh_methods, [(n, lo, hi) for n in range(nf + 1)
+                                       for lo, hi in chunks(n, {0: 1, 1: 1, 2: 2, 3: 6, 4: 12, 5: 15, 6: 45}[n])])
+        whats = [("dist", b, 3) for b in [None] + singles]
+        for n in range(0, 4):
+            whats += [("bij", label, pairs) for label, pairs in bij_family(n)]
+        ctx.pmap(shard_fresh_tools, split(whats, 32))
+        ctx.bounds["fresh"] = {
+            "methods": "%d methods returning lists / deques / Counters / lists of lists (and generators of "
+                       "lists) x all permutations of length <= %d; after damaging the result: same object, new "
+                       "equal object, shared Perm.to_standard object, every alias" % (
+                           len([nm for nm in METHODS if METHODS[nm][0] in CONTAINER_KINDS]), nf),
+            "tools": "distribution_for_length / distribution_up_to (32 statistics x (S_n + 9 classes), n=3), "
+                     "check_all_transformed + symmetry_duplication (bijection families on S_n, n<=3)"}
+        ctx.section("fresh", evaluations=ctx.evals - e0)
+
+    if want("abort"):
+        e0 = ctx.evals
+        ops, tools = abort_ops(quick)
+        ctx.pmap(shard_abort, split(ops, 96) + [[t] for t in tools])
+        ctx.bounds["abort"] = {
+            "operations": "every method on every permutation of length <= 4 (%d operations) + %d tool calls "
+                          "(distribution_for_length for the 32 statistics with and without a class, "
+                          "distribution_up_to, preserved_in, check_all_preservations, equally_distributed, "
+                          "jointly_equally_distributed, symmetry_duplication%s)"
+                          % (len(ops), len(tools), "" if quick else ", check_all_transformed"),
+            "injection_points": ctx.counters.get("abort_points", 0),
+            "read_back": "the aborted method + %d observers on the aborted object, the shared to_standard "
+                         "object and a new equal object; for tools the tool again (same and new arguments) "
+                         "and the observers on every Perm object that went through the aborted call; 20 s "
+                         "alarm" % len(ABORT_OBSERVERS)}
+        ctx.section("abort", evaluations=ctx.evals - e0,
+                    injection_points=ctx.counters.get("abort_points", 0))
+
     # ---- user-defined statistics ----------------------------------------------------------------
     if want("custom"):
         e0 = ctx.evals
@@ -1248,6 +1991,58 @@ def replay(ctx, rec):
                 run_bij_case(part, case["label"], case["pairs"], (case["tool"],))
             if _first(ctx, part, case, rec.get("signature")):
                 break
+    elif sub == "forms":
+        if "method" in case:
+            check_method(ctx, Perm, tuple(case["perm"]), case["method"], tuple(case["args"]), times=T,
+                         form=case.get("form"), kwargs=case.get("kwargs"), sub="forms")
+        elif "stat" in case and "tool" not in case:
+            p = tuple(case["perm"])
+            ref, dev = D.table_values(p)
+            j = D.NAMES.index(case["stat"])
+            func = [f for nm, f in PS._STATISTICS if nm == case["stat"]][0]
+            for _ in range(T):
+                try:
+                    got = func(perm_forms(Perm)[case["form"]](p))
+                except Exception as exc:  # noqa
+                    got = repr(exc)
+                if got != ref[j]:
+                    report(ctx, "forms", case, {"expected": ref[j], "got": got},
+                           SIG[case["stat"]] if (case["stat"] in SIG and got == dev[j]) else None)
+                    break
+        else:
+            for _ in range(T):
+                part = Partial()
+                if "basis" in case:
+                    run_dist_case(part, case["basis"], case["n"], stat_names={case["stat"]},
+                                  form=case.get("form"), sub="forms")
+                elif "basis1" in case:
+                    run_pair_case(part, case["tool"], case["basis1"], case["basis2"], case["n"],
+                                  case["dim"], form=case.get("form"), sub="forms")
+                else:
+                    run_bij_case(part, case["label"], case["pairs"], (case["tool"],),
+                                 form=case.get("form"), sub="forms")
+                if _first(ctx, part, case, rec.get("signature")):
+                    break
+    elif sub == "fresh":
+        if "method" in case:
+            fresh_method_case(ctx, Perm, tuple(case["perm"]), case["method"], tuple(case["args"]),
+                              times=T)
+        else:
+            what = ("dist", case["basis"], case["n"]) if "basis" in case else \
+                ("bij", case["label"], case["pairs"])
+            for _ in range(T):
+                part = Partial()
+                fresh_tool_case(part, what)
+                hit = [v for v in part.viols if v["sub"] == "fresh" and v["sig"] == rec.get("signature")]
+                if hit:
+                    ctx.violation("fresh", case, hit[0]["detail"], sig=hit[0]["sig"])
+                    break
+    elif sub == "abort":
+        part = Partial()
+        abort_case(part, case["op"], k_list=[case["abort_at_call"]])
+        hit = [v for v in part.viols if v["sig"] == rec.get("signature")]
+        if hit:
+            ctx.violation("abort", case, hit[0]["detail"], sig=hit[0]["sig"])
     elif sub == "scale":
         for _ in range(T):
             part = shard_scale_tools((case["scale_n"], case["sym"]))
